@@ -193,3 +193,15 @@ func VerifyImage(img []byte, cert *x509.Certificate) (bool, string) {
 	}
 	return false, reason
 }
+
+// StripTable returns the image without its certificate table and with a zeroed directory entry.
+func StripTable(img []byte) ([]byte, error) {
+	content, l, err := Content(img)
+	if err != nil {
+		return nil, err
+	}
+	out := append([]byte{}, content...)
+	binary.LittleEndian.PutUint32(out[l.DD4Off:], 0)
+	binary.LittleEndian.PutUint32(out[l.DD4Off+4:], 0)
+	return out, nil
+}
